@@ -105,7 +105,9 @@ def make_executor(sdl):
                     if under or has_cond(s):
                         keys.add(s.alias.value if s.alias else s.name.value)
                     if s.selection_set:
-                        walk(s.selection_set, False)
+                        # a conditional field node may be merged with an unconditional node of the same
+                        # response key: its sub-selection is then only conditionally present
+                        walk(s.selection_set, under or has_cond(s))
                 elif isinstance(s, InlineFragmentNode):
                     walk(s.selection_set, under or has_cond(s))
                 elif isinstance(s, FragmentSpreadNode):
